@@ -7,7 +7,7 @@ property named in meta.json ("property" or "properties"), undoes the patch strai
 (git checkout -- . ; untracked files created by the patch are removed), and records the outcome in
 seeded/<id>/result.json.  Nothing is ever committed to /repo."""
 import json, os, subprocess, sys, time
-V = "/verif"; R = "/repo"
+V = os.path.dirname(os.path.dirname(os.path.abspath(__file__))); R = "/repo"
 
 def sh(cmd, cwd=None, timeout=None):
     p = subprocess.run(cmd, cwd=cwd, stdout=subprocess.PIPE, stderr=subprocess.STDOUT, text=True, timeout=timeout)
